@@ -7,7 +7,7 @@ META = {
     'technique': 'Lean 4 theorems about a statement-level model of ToSPDX23/ToCDX and of the sbom/spdx + sbom/cdx importers, parametric in the '
                  'serialiser/parser pair (Codec) and the purl library; differential validation of the Codec.roundtrips ASSUMPTION and of the model by '
                  'writing real files with binary/spdx.Write23 / binary/cdx.Write and scanning them with the real SBOM extractors',
-    'design_ref': 'DESIGN.md §5 C15',
+    'design_ref': 'DESIGN.md §4 (section of C15), §5 (defects), §7 (seeded changes)',
     'text': 'Kernel-checked for ALL inventories: if the chosen format\'s codec round-trips (decode (encode d) = some d), scanning the written file returns, '
             'in order, exactly the normalised purls (norm u = FromString(u.String())) of the exported packages — SPDX: purl present with non-empty name and version; '
             'CycloneDX: purl present — duplicates kept, purl-less packages and the extra "main" SPDX package absent (C15_spdx, C15_cdx, *_general); if the parser rejects '
